@@ -24,7 +24,8 @@ RULE = ("programs = DSL-built schemas (no alias/custom type): every type x value
 ASSUMPTIONS = ["non-finite floats (repr 'inf'/'nan' is not an expression over the allowed names) and frozenset keys are excluded",
                "aliases and custom types are excluded by the property",
                "bool dict keys are excluded (True/1 collapse in a dict literal; Python semantics)"]
-TIERS = {"quick": dict(shards=16, cases=6000, xproc=0), "thorough": dict(shards=16, cases=160000, xproc=40)}
+REACH_FILES = ['d42/representation/_representor.py']
+TIERS = {"quick": dict(shards=16, cases=20000, xproc=0), "thorough": dict(shards=16, cases=160000, xproc=40)}
 
 KINDS = {"none": 2, "bool": 3, "int": 8, "float": 8, "str": 10, "list": 10, "dict": 10, "any": 4,
          "bytes": 3, "uuid4": 3, "datetime": 3, "date": 3}
